@@ -228,6 +228,14 @@ def run(ck: Check, repo: Repo) -> None:
     ck.not_decided = ["exact slice arithmetic for every interleaving of markers (needs string/integer reasoning)"]
     ck.trust("CPython ast", "sa/tab.py", "sa/fold.py")
     folder = Folder(repo)
+    fib = repo.func(f"{EX}.filter_ignore_block")
+    uses_index = any(isinstance(n, ast.Call) and isinstance(n.func, ast.Attribute) and n.func.attr in ("index", "find")
+                     for n in ast.walk(fib))
+    recursive = any(isinstance(n, ast.Call) and ast.unparse(n.func) == "filter_ignore_block" for n in ast.walk(fib))
+    if not (uses_index and recursive):
+        raise AnalysisError("filter_ignore_block no longer has the index-and-recurse structure that the branch table models"
+                            " (marker positions by str.index, recursion on the rest): this analyser cannot decide the new"
+                            " implementation - string-splitting code needs value reasoning that is outside static reach here")
     rule_index_truthiness(ck, repo, folder)
     rule_branch_table(ck, repo, folder)
     rule_filter_first(ck, repo)
